@@ -84,6 +84,13 @@ def run(prog: Program, res: Result, tier: str) -> None:
         ok = all(w in src for w in want) and "if threshold <= 0:" in src
         (res.ok if ok else res.bad)("R1", f, f.node, f"{fname}: |z| > threshold (strict), threshold must be positive" if ok else
                                     f"{fname}: thresholding of the z-scores changed", construct=fname, key=fname)
+    from .c15 import check_doublemad_symmetry
+    scratch = Result("C15", prog)
+    check_doublemad_symmetry(prog, scratch, "R5")
+    for o in scratch.obligations:
+        res.add("R1", None, None, o.ok, f"[{o.rule}] (method 'mad' thresholds double-MAD z-scores) {o.detail}", construct=o.construct,
+                key=f"{o.rule}:{o.key}", where=o.where)
+        res.obligations[-1].file, res.obligations[-1].line = o.file, o.line
     dfl = {m.name: m for m in cls.methods.values() if m.name.startswith("_set_")}
     ok = all("return np.zeros(self.header.nchans, dtype='bool')" in norm(m.node) for m in dfl.values()) and len(dfl) == 4
     (res.ok if ok else res.bad)("R1", None, cls.node, "all four masks start as all-False of length nchans" if ok else
